@@ -1,5 +1,5 @@
 (* DbProofs.v — lemmas about DbKey.v / DbModel.v for C10 and C11. *)
-From Coq Require Import Lia ZArith.
+From Coq Require Import Lia ZArith Sorted.
 From Coq Require Import ZifyN ZifyNat ZifyBool.
 From Vise Require Import Bytes Errors Consts DbKey DbModel BytesProofs.
 Local Open Scope N_scope.
@@ -806,4 +806,1190 @@ Proof.
   - exfalso. injection E as _ _ _ E4 _. apply b64c_not_pad in E4; [exact E4|lia].
   - injection E as E1 E2 E3 E4 E5. apply b64c_inj in E1, E2, E3, E4; try lia.
     f_equal; [lia|]. f_equal; [lia|]. f_equal; [lia|]. apply IH; assumption.
+Qed.
+
+(* ---- fs refines the reference map (plain names, no legacy clash) -------------------------------------- *)
+Definition fs_a (bin : bool) (a : akey) : akey :=
+  mkAkey (a_typ a) (a_sess a) (a_lang a) (if bin then b64_enc (a_key a) else a_key a).
+Definition nm (bin : bool) (a : akey) : bytes := fs_name (enc_a (fs_a bin a)).
+Definition fs_wf (bin : bool) (a : akey) : bool :=
+  wf_akey (fs_a bin a) && (if bin then bytes_ok (a_key a) else true)
+  && documented_type (a_typ a) && name_plain (nm bin a).
+
+Lemma documented_cases t : documented_type t = true ->
+  t = 1 \/ t = 2 \/ t = 4 \/ t = 8 \/ t = 16 \/ t = 32.
+Proof.
+  unfold documented_type, DATATYPE_BIN, DATATYPE_MENU, DATATYPE_TEMPLATE, DATATYPE_STATICLOAD,
+    DATATYPE_STATE, DATATYPE_USERDATA. intros H.
+  repeat (apply orb_true_iff in H as [H|H]); apply N.eqb_eq in H; auto 10.
+Qed.
+
+Lemma nm_unfold bin a : nm bin a = w8 (a_typ a + fs_type_offset) :: a_sk (fs_a bin a) ++ lang_suffix (a_typ a) (a_lang a).
+Proof. reflexivity. Qed.
+
+Lemma nm_hd bin a : documented_type (a_typ a) = true -> type_char (hd 0 (nm bin a)) = true.
+Proof.
+  intros H. rewrite nm_unfold. cbn [hd]. apply documented_cases in H.
+  destruct H as [H|[H|[H|[H|[H|H]]]]]; rewrite H; reflexivity.
+Qed.
+
+Lemma nm_inj bin a a' : fs_wf bin a = true -> fs_wf bin a' = true -> nm bin a = nm bin a' -> a = a'.
+Proof.
+  unfold fs_wf. intros W W' E.
+  apply andb_true_iff in W as [W Wp]. apply andb_true_iff in W as [W Wdoc]. apply andb_true_iff in W as [Wa Wb].
+  apply andb_true_iff in W' as [W' Wp']. apply andb_true_iff in W' as [W' Wdoc']. apply andb_true_iff in W' as [Wa' Wb'].
+  rewrite !nm_unfold in E. injection E as Et E.
+  assert (Ht : a_typ a = a_typ a').
+  { apply documented_cases in Wdoc, Wdoc'. unfold w8, fs_type_offset in Et.
+    destruct Wdoc as [H0|[H0|[H0|[H0|[H0|H0]]]]]; destruct Wdoc' as [H3|[H3|[H3|[H3|[H3|H3]]]]];
+      rewrite H0, H3 in *; try reflexivity; vm_compute in Et; discriminate. }
+  assert (Ea : enc_a (fs_a bin a) = enc_a (fs_a bin a')).
+  { rewrite !enc_a_unfold. cbn [fs_a a_typ a_lang]. rewrite <- Ht. f_equal. rewrite Ht at 2. exact E. }
+  apply enc_a_injective in Ea; [|assumption|assumption].
+  destruct a as [t s l k], a' as [t' s' l' k']. unfold fs_a in Ea. cbn [a_typ a_sess a_lang a_key] in *.
+  injection Ea as -> -> -> Ek. f_equal.
+  destruct bin; [apply b64_enc_inj; assumption|exact Ek].
+Qed.
+
+Definition files_typed (dir : list bytes) (store : list (bytes * bytes)) : Prop :=
+  forall p v, In (p, v) store -> exists n, p = path_str (dir ++ [n]) /\ type_char (hd 0 n) = true.
+
+Definition fs_rel (bin : bool) (st : dbstate) (sp : spec) : Prop :=
+  d_base st = model_base (sp_base sp) /\ dir_ok (d_dir st) = true /\ ctx_ok (sp_base sp)
+  /\ (b_pfx (sp_base sp) = 0 \/ documented_type (b_pfx (sp_base sp)) = true)
+  /\ (forall a, fs_wf bin a = true ->
+        alookup (path_str (d_dir st ++ [nm bin a])) (d_store st) = slookup a (sp_map sp))
+  /\ files_typed (d_dir st) (d_store st).
+
+Lemma alt_absent dir store alt :
+  files_typed dir store -> no_legacy_clash alt = true -> alookup (path_str (dir ++ [alt])) store = None.
+Proof.
+  intros Hf Hc. destruct (alookup (path_str (dir ++ [alt])) store) as [v|] eqn:E; [|reflexivity].
+  exfalso. apply alookup_in_pair in E. destruct (Hf _ _ E) as [n [Hp Ht]].
+  apply path_str_inj in Hp. subst n. destruct alt as [|c r]; [discriminate|].
+  cbn [no_legacy_clash hd] in *. rewrite Ht in Hc. discriminate.
+Qed.
+
+Lemma fs_try_slot st prim alt r :
+  dir_ok (d_dir st) = true -> files_typed (d_dir st) (d_store st) ->
+  name_plain prim = true -> name_plain alt = true -> no_legacy_clash alt = true ->
+  fs_try st (Some (clean_join (d_dir st) prim) :: Some (clean_join (d_dir st) alt) :: r)
+  = match alookup (path_str (d_dir st ++ [prim])) (d_store st) with Some v => DVal v | None => fs_try st r end.
+Proof.
+  intros Hd Hf Hp Ha Hc. rewrite !clean_join_plain by assumption. cbn [fs_try].
+  rewrite !fs_open_child by assumption. unfold lookup_open.
+  destruct (alookup (path_str (d_dir st ++ [prim])) (d_store st)); [reflexivity|].
+  rewrite (alt_absent _ _ _ Hf Hc). reflexivity.
+Qed.
+
+Lemma fs_try_none st r : fs_try st (None :: r) = fs_try st r.
+Proof. reflexivity. Qed.
+
+Lemma fs_to_key_model bin b k :
+  b_pfx b <> 0 -> ctx_ok b ->
+  fs_to_key bin (model_base b) k
+  = Ok (mkLk (enc_a (fs_a bin (ctx_akey b None k)))
+             (option_map (fun c => enc_a (fs_a bin (ctx_akey b (Some c) k))) (eff_lang b))).
+Proof.
+  intros Hp Hc. unfold fs_to_key. rewrite (to_key_model _ _ Hp Hc). destruct bin; reflexivity.
+Qed.
+
+(* what the fs guard of a Put/Get gives *)
+Lemma fs_guard_spec (bin : bool) b k :
+  b_pfx b <> 0 -> documented_type (b_pfx b) = true -> ctx_ok b ->
+  ((if bin then bytes_ok k else true) && key_ok b (if bin then b64_enc k else k) && fs_key_ok bin b k) = true ->
+  let ok := fun a : akey => fs_wf bin a = true /\ name_plain (nm bin a) = true
+                     /\ name_plain (fs_alt_name (b_pfx b) (enc_a (fs_a bin a))) = true
+                     /\ no_legacy_clash (fs_alt_name (b_pfx b) (enc_a (fs_a bin a))) = true in
+  ok (ctx_akey b None k) /\ (forall c, eff_lang b = Some c -> ok (ctx_akey b (Some c) k)).
+Proof.
+  intros Hp Hdoc Hc H. apply andb_true_iff in H as [H Hfk]. apply andb_true_iff in H as [Hbk Hk].
+  destruct (ctx_akey_wf b _ Hc Hk) as [Wd Wt].
+  unfold fs_key_ok in Hfk. rewrite (fs_to_key_model bin b k Hp Hc) in Hfk.
+  unfold fs_lk_ok in Hfk. cbn [lk_default lk_translation] in Hfk.
+  apply andb_true_iff in Hfk as [Hdef Htr].
+  assert (Wf : forall l, wf_akey (fs_a bin (ctx_akey b l k)) = wf_akey (ctx_akey b l (if bin then b64_enc k else k)))
+    by (intros l; destruct bin; reflexivity).
+  cbv zeta. split.
+  - apply andb_true_iff in Hdef as [Hdef H3]. apply andb_true_iff in Hdef as [H1 H2].
+    repeat split; try assumption. unfold fs_wf. rewrite Wf, Wd. cbn [ctx_akey a_key a_typ].
+    rewrite Hbk, Hdoc. cbn [andb]. exact H1.
+  - intros c Hl. rewrite Hl in Htr. cbn [option_map] in Htr.
+    apply andb_true_iff in Htr as [Htr H3]. apply andb_true_iff in Htr as [H1 H2].
+    repeat split; try assumption. unfold fs_wf. rewrite Wf, (Wt c Hl). cbn [ctx_akey a_key a_typ].
+    rewrite Hbk, Hdoc. cbn [andb]. exact H1.
+Qed.
+
+Lemma fs_get_refines bin st sp k :
+  fs_rel bin st sp -> fs_op_ok bin (sp_base sp) (OGet k) = true ->
+  fs_get bin st k = spec_get sp k.
+Proof.
+  intros [Hb [Hd [Hc [Hp [Hm Hf]]]]] Hok. cbn [fs_op_ok] in Hok. unfold fs_get, spec_get. rewrite Hb.
+  destruct (b_pfx (sp_base sp) =? DATATYPE_UNKNOWN) eqn:Ep.
+  - apply N.eqb_eq in Ep. unfold fs_to_key, to_key. cbn [model_base b_pfx]. rewrite Ep. reflexivity.
+  - apply N.eqb_neq in Ep. destruct Hp as [Hp|Hp]; [contradiction|].
+    rewrite (fs_to_key_model bin _ k Ep Hc).
+    destruct (fs_guard_spec bin _ k Ep Hp Hc Hok) as [[Wd [Pd [Ad Cd]]] Gt].
+    unfold fs_candidates. cbn [lk_default lk_translation]. rewrite Hb. cbn [model_base b_pfx].
+    destruct (eff_lang (sp_base sp)) as [c|] eqn:El; cbn [option_map].
+    + destruct (Gt c eq_refl) as [Wt [Pt [At Ct]]].
+      fold (nm bin (ctx_akey (sp_base sp) (Some c) k)). fold (nm bin (ctx_akey (sp_base sp) None k)).
+      rewrite (fs_try_slot st _ _ _ Hd Hf Pt At Ct). rewrite (Hm _ Wt).
+      destruct (slookup (ctx_akey (sp_base sp) (Some c) k) (sp_map sp)); [reflexivity|].
+      rewrite (fs_try_slot st _ _ _ Hd Hf Pd Ad Cd). rewrite (Hm _ Wd). cbn [fs_try].
+      reflexivity.
+    + rewrite !fs_try_none. fold (nm bin (ctx_akey (sp_base sp) None k)).
+      rewrite (fs_try_slot st _ _ _ Hd Hf Pd Ad Cd). rewrite (Hm _ Wd). cbn [fs_try]. reflexivity.
+Qed.
+
+Lemma fs_put_refines bin st sp k v :
+  fs_rel bin st sp -> fs_op_ok bin (sp_base sp) (OPut k v) = true ->
+  fs_rel bin (fst (fs_put bin st k v)) (fst (spec_put sp k v))
+  /\ snd (fs_put bin st k v) = snd (spec_put sp k v).
+Proof.
+  intros R Hok. pose proof R as [Hb [Hd [Hc [Hp [Hm Hf]]]]]. cbn [fs_op_ok] in Hok.
+  unfold fs_put, spec_put. rewrite Hb, check_put_model.
+  destruct (check_put (sp_base sp)); cbn [negb]; [|cbn [fst snd]; auto].
+  destruct (b_pfx (sp_base sp) =? DATATYPE_UNKNOWN) eqn:Ep.
+  - apply N.eqb_eq in Ep. unfold fs_to_key, to_key. cbn [model_base b_pfx]. rewrite Ep.
+    change (DATATYPE_UNKNOWN =? DATATYPE_UNKNOWN) with true. cbn [fst snd]. auto.
+  - apply N.eqb_neq in Ep. destruct Hp as [Hp|Hp]; [contradiction|].
+    rewrite (fs_to_key_model bin _ k Ep Hc). cbn [lk_default lk_translation].
+    destruct (fs_guard_spec bin _ k Ep Hp Hc Hok) as [Gd Gt].
+    set (a0 := ctx_akey (sp_base sp) (eff_lang (sp_base sp)) k).
+    assert (G0 : fs_wf bin a0 = true /\ name_plain (nm bin a0) = true).
+    { subst a0. destruct (eff_lang (sp_base sp)) as [c|] eqn:El.
+      - destruct (Gt c eq_refl) as [W [P _]]. auto.
+      - destruct Gd as [W [P _]]. auto. }
+    destruct G0 as [W0 P0].
+    assert (Hsk : fs_name (match option_map (fun c => enc_a (fs_a bin (ctx_akey (sp_base sp) (Some c) k))) (eff_lang (sp_base sp)) with
+                  | Some t => t | None => enc_a (fs_a bin (ctx_akey (sp_base sp) None k)) end) = nm bin a0).
+    { subst a0. destruct (eff_lang (sp_base sp)); reflexivity. }
+    rewrite Hsk, (clean_join_plain _ _ P0), (fs_write_child st _ v Hd P0). cbn [fst snd].
+    split; [|reflexivity].
+    split; [exact Hb|]. cbn [with_store d_dir d_store sp_base sp_map].
+    split; [exact Hd|]. split; [exact Hc|]. split; [right; exact Hp|]. split.
+    + intros a Wa. cbn [slookup]. destruct (akey_eqb a a0) eqn:Ea.
+      * apply akey_eqb_eq in Ea. subst a. apply db_alookup_aset_same.
+      * rewrite db_alookup_aset_other; [apply Hm; exact Wa|].
+        intros E. apply path_str_inj in E. apply nm_inj in E; auto. subst a. rewrite akey_eqb_refl in Ea. discriminate.
+    + intros p w Hin. apply in_aset in Hin as [Hin|Hin]; [|apply Hf in Hin; exact Hin].
+      injection Hin as -> ->. exists (nm bin a0). split; [reflexivity|]. apply nm_hd.
+      subst a0. cbn [ctx_akey a_typ]. exact Hp.
+Qed.
+
+Lemma fs_step_refines bin st sp o :
+  fs_rel bin st sp -> fs_op_ok bin (sp_base sp) o = true ->
+  fs_rel bin (fst (db_step (BFs bin) st o)) (fst (spec_step sp o))
+  /\ snd (db_step (BFs bin) st o) = snd (spec_step sp o).
+Proof.
+  intros R Hok. pose proof R as [Hb [Hd [[Hdf Hl] [Hp [Hm Hf]]]]].
+  destruct o as [k v|k|p|s|l|p lk|k|k]; try (cbn [fs_op_ok] in Hok; discriminate).
+  - cbn [db_step spec_step]. apply fs_put_refines; assumption.
+  - cbn [db_step spec_step fst snd]. split; [exact R|]. apply fs_get_refines; assumption.
+  - cbn [fs_op_ok] in Hok. cbn [db_step spec_step fst snd]. split; [|reflexivity].
+    split; [cbn [with_base d_base sp_base]; rewrite Hb; reflexivity|]. split; [exact Hd|].
+    split; [split; assumption|]. split; [right; exact Hok|]. split; [exact Hm|exact Hf].
+  - cbn [fs_op_ok] in Hok. cbn [db_step spec_step fst snd]. split; [|reflexivity].
+    split; [cbn [with_base d_base sp_base]; rewrite Hb; reflexivity|]. split; [exact Hd|].
+    split; [split; [exact Hok|exact Hl]|]. split; [exact Hp|]. split; [exact Hm|exact Hf].
+  - cbn [fs_op_ok] in Hok. cbn [db_step spec_step fst snd]. split; [|reflexivity].
+    split; [cbn [with_base d_base sp_base]; rewrite Hb; reflexivity|]. split; [exact Hd|].
+    split; [split; [exact Hdf|]|].
+    { cbn [set_language b_lang]. destruct l as [c|]; cbn [lang_ok]; [apply N.eqb_eq; exact Hok|exact I]. }
+    split; [exact Hp|]. split; [exact Hm|exact Hf].
+  - cbn [db_step spec_step]. rewrite Hb, model_base_set_lock.
+    destruct (set_lock (sp_base sp) p lk) as [b' ok] eqn:Esl. cbn [fst snd].
+    split; [|reflexivity]. split; [reflexivity|]. cbn [with_base d_dir d_store sp_base sp_map].
+    pose proof (set_lock_ctx (sp_base sp) p lk) as [H1 [H2 H3]]. rewrite Esl in H1, H2, H3. cbn [fst] in H1, H2, H3.
+    split; [exact Hd|]. split; [split; [rewrite H1; exact Hdf|rewrite H2; exact Hl]|].
+    split; [rewrite H3; exact Hp|]. split; [exact Hm|exact Hf].
+Qed.
+
+Lemma fs_run_refines bin : forall ops st sp, fs_rel bin st sp -> fs_hist_ok bin sp ops = true ->
+  snd (db_run (BFs bin) st ops) = snd (spec_run sp ops).
+Proof.
+  induction ops as [|o ops IH]; intros st sp R Hok; [reflexivity|].
+  cbn [fs_hist_ok] in Hok. apply andb_true_iff in Hok as [Ho Hr].
+  destruct (fs_step_refines bin st sp o R Ho) as [R' Er].
+  cbn [db_run spec_run].
+  destruct (db_step (BFs bin) st o) as [st' x] eqn:E1. destruct (spec_step sp o) as [sp' x'] eqn:E2.
+  cbn [fst snd] in *. subst x'.
+  specialize (IH st' sp' R' Hr).
+  destruct (db_run (BFs bin) st' ops) as [st2 xs]. destruct (spec_run sp' ops) as [sp2 xs']. cbn [snd] in *.
+  subst. reflexivity.
+Qed.
+
+Theorem fs_refines_spec_partial_lemma : forall bin dir ops,
+  dir_ok dir = true -> fs_hist_ok bin spec_init ops = true ->
+  db_results (BFs bin) dir ops = spec_results ops.
+Proof.
+  intros bin dir ops Hd H. unfold db_results, spec_results. apply fs_run_refines; [|exact H].
+  split; [reflexivity|]. split; [exact Hd|]. split; [split; [reflexivity|exact I]|].
+  split; [left; reflexivity|]. split; [intros a _; reflexivity|]. intros p v [].
+Qed.
+
+(* ---- fs: paths are injective on plain names; legacy names never hit an entry ------------------------- *)
+Lemma w8_type_inj t t' : documented_type t = true -> documented_type t' = true ->
+  w8 (t + fs_type_offset) = w8 (t' + fs_type_offset) -> t = t'.
+Proof.
+  intros H H' E. apply documented_cases in H, H'.
+  destruct H as [H|[H|[H|[H|[H|H]]]]]; destruct H' as [H'|[H'|[H'|[H'|[H'|H']]]]];
+    rewrite H, H' in *; try reflexivity; vm_compute in E; discriminate.
+Qed.
+
+Lemma fs_name_cons t r : fs_name (t :: r) = w8 (t + fs_type_offset) :: r.
+Proof. reflexivity. Qed.
+
+Theorem path_injective_partial_lemma : forall dir t s k t' s' k',
+  documented_type t = true -> documented_type t' = true ->
+  sessioned t = true -> sessioned t' = true -> wf_sid s = true -> wf_sid s' = true ->
+  name_plain (fs_name (skey t s None k)) = true -> name_plain (fs_name (skey t' s' None k')) = true ->
+  clean_join dir (fs_name (skey t s None k)) = clean_join dir (fs_name (skey t' s' None k')) ->
+  (t, s, k) = (t', s', k').
+Proof.
+  intros dir t s k t' s' k' Hd Hd' Hs Hs' Ws Ws' Hp Hp' E.
+  rewrite !clean_join_plain in E by assumption. apply app_inv_head in E.
+  assert (E0 : fs_name (skey t s None k) = fs_name (skey t' s' None k')) by congruence. clear E.
+  assert (E' : skey t s None k = skey t' s' None k').
+  { unfold skey, to_db_key in *. rewrite !fs_name_cons in E0. injection E0 as Et E.
+    apply w8_type_inj in Et; [|assumption|assumption]. subst t'. f_equal. exact E. }
+  apply enc_injective_lemma; assumption.
+Qed.
+
+Theorem legacy_never_hits_lemma : forall dir alt t s l k,
+  name_plain alt = true -> no_legacy_clash alt = true -> documented_type t = true ->
+  name_plain (fs_name (skey t s l k)) = true ->
+  clean_join dir alt <> clean_join dir (fs_name (skey t s l k)).
+Proof.
+  intros dir alt t s l k Ha Hc Hd Hp E. rewrite !clean_join_plain in E by assumption.
+  apply app_inv_head in E. injection E as E. subst alt.
+  unfold skey, to_db_key in Hc. cbn [fs_name no_legacy_clash] in Hc.
+  apply documented_cases in Hd. destruct Hd as [H|[H|[H|[H|[H|H]]]]]; rewrite H in Hc; vm_compute in Hc; discriminate.
+Qed.
+
+(* ---- the property's named guards imply the theorems' guards ------------------------------------------- *)
+Lemma sym_chars_dot_free r : forallb (fun x => is_alnum x || (x =? ch_us)) r = true -> dot_free r = true.
+Proof.
+  unfold dot_free, has_byte. induction r as [|x r IH]; intros H; [reflexivity|].
+  cbn [forallb existsb] in *. apply andb_true_iff in H as [Hx Hr]. specialize (IH Hr).
+  apply negb_true_iff in IH. rewrite IH, orb_false_r. apply negb_true_iff.
+  destruct (ch_dot =? x) eqn:E; [|reflexivity]. apply N.eqb_eq in E. subst x. discriminate.
+Qed.
+Lemma sym_grammar_dot_free k : sym_grammar k = true -> dot_free k = true.
+Proof.
+  destruct k as [|c [|d r]]; try discriminate. cbn [sym_grammar]. intros H. apply andb_true_iff in H as [Hc Hr].
+  apply (sym_chars_dot_free (c :: d :: r)). cbn [forallb] in *. rewrite Hc. exact Hr.
+Qed.
+
+Lemma wf_key_key_ok b k : wf_key k = true -> documented_type (b_pfx b) = true -> key_ok b k = true.
+Proof.
+  unfold wf_key, key_ok. intros H Hd. apply andb_true_iff in H as [Hg Hn].
+  rewrite (sym_grammar_dot_free _ Hg). replace (if sessioned (b_pfx b) && is_nil (b_sid b) then true else true) with true
+    by (destruct (sessioned (b_pfx b) && is_nil (b_sid b)); reflexivity).
+  cbn [andb]. unfold to_session_key.
+  apply documented_cases in Hd. destruct Hd as [H|[H|[H|[H|[H|H]]]]]; rewrite H; cbn; try exact Hn; reflexivity.
+Qed.
+
+(* ---- refutations: concrete histories on which the faithful model leaves the reference map ---------------- *)
+Definition wdir : list bytes := [s2b "p"; s2b "q"; s2b "s"].
+Definition unlock_all : list dbop :=
+  [OSetLock DATATYPE_BIN false; OSetLock DATATYPE_MENU false; OSetLock DATATYPE_TEMPLATE false; OSetLock DATATYPE_STATICLOAD false].
+Definition fs_state (bin : bool) (ops : list dbop) : dbstate := fst (db_run (BFs bin) (db_init wdir) ops).
+Definition ref_state (ops : list dbop) : spec := fst (spec_run spec_init ops).
+
+(* K-C10-1: legacy fallback name: BIN "Ps" returns the USERDATA of session "s", key "bin" *)
+Definition w_legacy : list dbop :=
+  unlock_all ++ [OSetPrefix DATATYPE_USERDATA; OSetSession (s2b "s"); OPut (s2b "bin") (s2b "secret");
+                 OSetPrefix DATATYPE_BIN; OGet (s2b "Ps")].
+Theorem fs_refuted_legacy :
+  exists ops, hist_ok spec_init ops = true /\ wf_key (s2b "Ps") = true /\ wf_key (s2b "bin") = true
+    /\ fs_hist_ok false spec_init ops = false
+    /\ last (db_results (BFs false) wdir ops) DOk = DVal (s2b "secret")
+    /\ last (spec_results ops) DOk = DErr ENotFound.
+Proof. exists w_legacy. vm_compute. repeat split. Qed.
+
+(* K-C10-2: std-alphabet base64 puts '/' into file names: the Put fails *)
+Definition w_b64 : list dbop :=
+  unlock_all ++ [OSetPrefix DATATYPE_USERDATA; OPut [99; 240] (s2b "v1"); OGet [99; 240]].
+Theorem fs_refuted_base64_slash :
+  exists ops, hist_ok spec_init ops = true /\ b64_slash_free [99; 240] = false
+    /\ fs_hist_ok true spec_init ops = false
+    /\ db_results (BFs true) wdir ops <> spec_results ops
+    /\ db_results BMem wdir ops = spec_results ops.
+Proof. exists w_b64. vm_compute. repeat split. intros H. discriminate H. Qed.
+
+(* K-C10-3: binary Dump stops at the first non-matching file; base64 order is not prefix order *)
+Definition w_bindump : list dbop :=
+  unlock_all ++ [OSetPrefix DATATYPE_USERDATA; OPut (s2b "ca") (s2b "v1"); OPut [98; 160] (s2b "v2");
+                 OPut (s2b "c") (s2b "v3"); OPut [99; 0] (s2b "v4")].
+Theorem fs_refuted_binary_dump :
+  exists ops p, fs_hist_ok true spec_init ops = true
+    /\ fs_dump true (fs_state true ops) p = DDump [(s2b "ca", s2b "v1")]
+    /\ spec_dump (ref_state ops) p = DDump [(s2b "c", s2b "v3"); ([99; 0], s2b "v4"); (s2b "ca", s2b "v1")].
+Proof. exists w_bindump, (s2b "c"). vm_compute. repeat split. Qed.
+
+(* K-C10-4: Dump over a store that holds translations lists a key twice ... *)
+Definition w_dump_tr : list dbop :=
+  unlock_all ++ [OSetPrefix DATATYPE_MENU; OPut (s2b "foo") (s2b "default"); OSetLanguage (Some (s2b "nor"));
+                 OPut (s2b "foo") (s2b "norsk")].
+Theorem fs_refuted_dump_translation_twice :
+  exists ops p, fs_hist_ok false spec_init ops = true
+    /\ fs_dump false (fs_state false ops) p = DDump [(s2b "foo", s2b "norsk"); (s2b "foo", s2b "norsk")]
+    /\ spec_dump (ref_state ops) p = DDump [(s2b "foo", s2b "norsk")].
+Proof. exists w_dump_tr, []. vm_compute. repeat split. Qed.
+(* ... or fails outright when an entry exists only as a translation *)
+Definition w_dump_tr_only : list dbop :=
+  unlock_all ++ [OSetPrefix DATATYPE_MENU; OPut (s2b "foo") (s2b "default"); OSetLanguage (Some (s2b "nor"));
+                 OPut (s2b "bar") (s2b "kun norsk"); OSetLanguage None].
+Theorem fs_refuted_dump_translation_only :
+  exists ops p, fs_hist_ok false spec_init ops = true
+    /\ fs_dump false (fs_state false ops) p = DErr ENotFound
+    /\ spec_dump (ref_state ops) p = DDump [(s2b "foo", s2b "default")].
+Proof. exists w_dump_tr_only, []. vm_compute. repeat split. Qed.
+
+(* K-C10-5 (new): Dump of an unsessioned type finds nothing while a session id is set:
+   DecodeKey strips the session prefix from every key, whatever its type *)
+Definition w_dump_sess : list dbop :=
+  unlock_all ++ [OSetPrefix DATATYPE_BIN; OPut (s2b "foo") (s2b "code"); OSetSession (s2b "s")].
+Theorem fs_refuted_dump_session_set :
+  exists ops p, fs_hist_ok false spec_init ops = true
+    /\ fs_dump false (fs_state false ops) p = DErr ENotFound
+    /\ spec_dump (ref_state ops) p = DDump [(s2b "foo", s2b "code")].
+Proof. exists w_dump_sess, []. vm_compute. repeat split. Qed.
+
+(* K-C10-6: a name longer than NAME_MAX cannot be stored: 255-byte key + type byte *)
+Theorem fs_refuted_name_too_long :
+  exists ops, hist_ok spec_init ops = true /\ wf_key (rep 120 255) = true
+    /\ fs_hist_ok false spec_init ops = false
+    /\ last (db_results (BFs false) wdir ops) DOk = DErr EGen
+    /\ last (spec_results ops) DOk = DOk.
+Proof. exists (unlock_all ++ [OSetPrefix DATATYPE_BIN; OPut (rep 120 255) (s2b "v")]). vm_compute. repeat split. Qed.
+
+(* K-C11-1: session "a" / key "b.c" and session "a.b" / key "c" share one storage key *)
+Theorem enc_refuted_dot :
+  exists t s k s' k', wf_sid s = true /\ wf_sid s' = false /\ (s, k) <> (s', k')
+    /\ skey t s None k = skey t s' None k'
+    /\ nth 7 (db_results BMem wdir
+               [OSetPrefix t; OSetSession s; OPut k (s2b "A"); OSetSession s'; OGet k'; OPut k' (s2b "B");
+                OSetSession s; OGet k]) DOk = DVal (s2b "B").
+Proof.
+  exists DATATYPE_USERDATA, (s2b "a"), (s2b "b.c"), (s2b "a.b"), (s2b "c"). vm_compute.
+  repeat split. intros H. discriminate H.
+Qed.
+
+(* K-C11-2: the empty session id sees (and overwrites) every session's entries *)
+Theorem enc_refuted_empty_session :
+  exists t s k s' k', wf_sid s = true /\ wf_sid s' = false /\ (s, k) <> (s', k')
+    /\ skey t s None k = skey t s' None k'
+    /\ nth 4 (db_results BPg wdir [OSetPrefix t; OSetSession s; OPut k (s2b "A"); OSetSession s'; OGet k']) DOk
+       = DVal (s2b "A").
+Proof.
+  exists DATATYPE_USERDATA, (s2b "a"), (s2b "k"), [], (s2b "a.k"). vm_compute.
+  repeat split. intros H. discriminate H.
+Qed.
+
+(* K-C11-3: fs: a key with "/../" addresses another session's file *)
+Theorem path_refuted_traversal :
+  exists t s k s' k', wf_sid s = true /\ wf_sid s' = true /\ (s, k) <> (s', k')
+    /\ slash_free k' = false
+    /\ clean_join wdir (fs_name (skey t s None k)) = clean_join wdir (fs_name (skey t s' None k'))
+    /\ nth 4 (db_results (BFs false) wdir [OSetPrefix t; OSetSession s; OPut k (s2b "1234"); OSetSession s'; OGet k']) DOk
+       = DVal (s2b "1234").
+Proof.
+  exists DATATYPE_USERDATA, (s2b "victim"), (s2b "pin"), (s2b "evil"), (s2b "/../Pvictim.pin"). vm_compute.
+  repeat split. intros H. discriminate H.
+Qed.
+
+(* K-C11-4: fs: STATE under session "Px" reads the USERDATA of session "x" through the legacy name *)
+Theorem path_refuted_legacy_cross_type :
+  exists s s' k, wf_sid s = true /\ wf_sid s' = true /\ wf_key k = true
+    /\ no_legacy_clash (fs_alt_name DATATYPE_STATE (skey DATATYPE_STATE s' None k)) = false
+    /\ nth 5 (db_results (BFs false) wdir
+               [OSetPrefix DATATYPE_USERDATA; OSetSession s; OPut k (s2b "userdata");
+                OSetPrefix DATATYPE_STATE; OSetSession s'; OGet k]) DOk = DVal (s2b "userdata").
+Proof. exists (s2b "x"), (s2b "Px"), (s2b "kk"). vm_compute. repeat split. Qed.
+
+(* ================================================================================================== *)
+(* fs Dump (text mode, default language) lists exactly the reference map's keys with the prefix      *)
+(* ================================================================================================== *)
+(* ---- the order of os.ReadDir: bytes_leb is a total preorder, asort sorts ---------------------------- *)
+Lemma bleb_refl a : bytes_leb a a = true.
+Proof. induction a as [|x a IH]; [reflexivity|]. cbn [bytes_leb]. rewrite N.ltb_irrefl. exact IH. Qed.
+
+Lemma bleb_total a : forall b, bytes_leb a b = true \/ bytes_leb b a = true.
+Proof.
+  induction a as [|x a IH]; intros [|y b]; cbn [bytes_leb]; auto.
+  destruct (x <? y) eqn:E1; [auto|]. destruct (y <? x) eqn:E2; [auto|]. apply IH.
+Qed.
+
+Lemma bleb_trans a : forall b c, bytes_leb a b = true -> bytes_leb b c = true -> bytes_leb a c = true.
+Proof.
+  induction a as [|x a IH]; intros [|y b] [|z c]; cbn [bytes_leb]; try discriminate; auto.
+  destruct (x <? y) eqn:E1; destruct (y <? z) eqn:E2; destruct (x <? z) eqn:E3; auto; intros H1 H2;
+    destruct (y <? x) eqn:E4; try discriminate; destruct (z <? y) eqn:E5; try discriminate;
+    destruct (z <? x) eqn:E6; try lia.
+  eapply IH; eassumption.
+Qed.
+
+Definition bleb (a b : bytes) : Prop := bytes_leb a b = true.
+Notation sorted := (StronglySorted bleb).
+
+Lemma ainsert_keys {V} k (v : V) l x : In x (map fst (ainsert k v l)) <-> x = k \/ In x (map fst l).
+Proof.
+  induction l as [|[k' v'] l IH]; cbn [ainsert map fst In].
+  - split; intros [H|H]; auto.
+  - destruct (bytes_leb k k'); cbn [map fst In].
+    + split; intros [H|H]; auto.
+    + rewrite IH. split; intros [H|[H|H]]; auto.
+Qed.
+Lemma asort_keys {V} (l : list (bytes * V)) x : In x (map fst (asort l)) <-> In x (map fst l).
+Proof.
+  unfold asort. induction l as [|[k v] l IH]; cbn [fold_right map fst In]; [tauto|].
+  rewrite ainsert_keys, IH. split; intros [H|H]; auto.
+Qed.
+Lemma ainsert_sorted {V} k (v : V) l : sorted (map fst l) -> sorted (map fst (ainsert k v l)).
+Proof.
+  induction l as [|[k' v'] l IH]; cbn [ainsert map fst]; intros H.
+  - constructor; constructor.
+  - inversion H as [|? ? Hs Hf]; subst. destruct (bytes_leb k k') eqn:E; cbn [map fst].
+    + constructor; [exact H|]. constructor; [exact E|].
+      apply Forall_forall. intros y Hy. rewrite Forall_forall in Hf. eapply bleb_trans; [exact E|apply Hf; exact Hy].
+    + constructor; [apply IH; exact Hs|]. apply Forall_forall. intros y Hy. apply ainsert_keys in Hy as [->|Hy].
+      * destruct (bleb_total k k') as [H1|H1]; [unfold bleb; congruence|exact H1].
+      * rewrite Forall_forall in Hf. apply Hf. exact Hy.
+Qed.
+Lemma asort_sorted {V} (l : list (bytes * V)) : sorted (map fst (asort l)).
+Proof.
+  unfold asort. induction l as [|[k v] l IH]; cbn [fold_right]; [constructor|]. apply ainsert_sorted. exact IH.
+Qed.
+Lemma ainsert_nodup {V} k (v : V) l : ~ In k (map fst l) -> NoDup (map fst l) -> NoDup (map fst (ainsert k v l)).
+Proof.
+  induction l as [|[k' v'] l IH]; cbn [ainsert map fst]; intros Hn Hd.
+  - constructor; [intros []|constructor].
+  - destruct (bytes_leb k k'); cbn [map fst].
+    + constructor; assumption.
+    + inversion Hd as [|? ? Hn' Hd']; subst. constructor.
+      * intros Hin. apply ainsert_keys in Hin as [->|Hin]; [apply Hn; left; reflexivity|contradiction].
+      * apply IH; [intros Hin; apply Hn; right; exact Hin|exact Hd'].
+Qed.
+Lemma asort_nodup {V} (l : list (bytes * V)) : NoDup (map fst l) -> NoDup (map fst (asort l)).
+Proof.
+  unfold asort. induction l as [|[k v] l IH]; cbn [fold_right map fst]; intros H; [constructor|].
+  inversion H as [|? ? Hn Hd]; subst. apply ainsert_nodup; [|apply IH; exact Hd].
+  intros Hin. apply (asort_keys l) in Hin. contradiction.
+Qed.
+
+(* ---- names with a given prefix are contiguous in a sorted list ------------------------------------------ *)
+Lemma prefix_convex q : forall x y z, bleb x y -> bleb y z ->
+  is_prefix q x = true -> is_prefix q z = true -> is_prefix q y = true.
+Proof.
+  unfold bleb. induction q as [|c q IH]; intros x y z Hxy Hyz Hx Hz; [reflexivity|].
+  destruct x as [|a x]; [discriminate|]. destruct z as [|e z]; [discriminate|].
+  cbn [is_prefix] in Hx, Hz. apply andb_true_iff in Hx as [Ha Hx]. apply andb_true_iff in Hz as [He Hz].
+  apply N.eqb_eq in Ha, He. subst a e.
+  destruct y as [|d y]; [discriminate|]. cbn [bytes_leb] in Hxy, Hyz. cbn [is_prefix].
+  destruct (N.lt_trichotomy c d) as [Hlt|[Heq|Hgt]].
+  - exfalso. replace (d <? c) with false in Hyz by (symmetry; apply N.ltb_ge; lia).
+    replace (c <? d) with true in Hyz by (symmetry; apply N.ltb_lt; lia). discriminate.
+  - subst d. rewrite N.ltb_irrefl in Hxy, Hyz. rewrite N.eqb_refl. cbn [andb]. eapply IH; eassumption.
+  - exfalso. replace (c <? d) with false in Hxy by (symmetry; apply N.ltb_ge; lia).
+    replace (d <? c) with true in Hxy by (symmetry; apply N.ltb_lt; lia). discriminate.
+Qed.
+
+Fixpoint skipw (P : bytes -> bool) (l : list bytes) : list bytes :=
+  match l with [] => [] | x :: r => if P x then x :: r else skipw P r end.
+Fixpoint takew (P : bytes -> bool) (l : list bytes) : list bytes :=
+  match l with [] => [] | x :: r => if P x then x :: takew P r else [] end.
+
+Lemma takew_after q x r : sorted (x :: r) -> is_prefix q x = true -> takew (is_prefix q) r = filter (is_prefix q) r.
+Proof.
+  revert x. induction r as [|y r IH]; intros x Hs Hx; [reflexivity|].
+  inversion Hs as [|? ? Hs' Hf]; subst. cbn [takew filter]. destruct (is_prefix q y) eqn:Ey.
+  - f_equal. apply (IH y); assumption.
+  - symmetry. inversion Hs' as [|? ? Hs'' Hf']; subst.
+    assert (forall z, In z r -> is_prefix q z = false).
+    { intros z Hz. destruct (is_prefix q z) eqn:Ez; [|reflexivity]. exfalso.
+      rewrite Forall_forall in Hf, Hf'.
+      assert (is_prefix q y = true) by (apply (prefix_convex q x y z); auto; apply Hf; left; reflexivity).
+      congruence. }
+    clear -H. induction r as [|z r IH]; [reflexivity|]. cbn [filter]. rewrite (H z) by (left; reflexivity).
+    apply IH. intros w Hw. apply H. right. exact Hw.
+Qed.
+Lemma takew_skipw_filter q l : sorted l -> takew (is_prefix q) (skipw (is_prefix q) l) = filter (is_prefix q) l.
+Proof.
+  induction l as [|x l IH]; intros Hs; [reflexivity|]. inversion Hs; subst. cbn [skipw filter].
+  destruct (is_prefix q x) eqn:Ex.
+  - cbn [takew]. rewrite Ex. f_equal. apply (takew_after q x); assumption.
+  - apply IH. assumption.
+Qed.
+
+(* ---- Dump (text mode) as skip / take-while over the directory listing ----------------------------------- *)
+
+Lemma dump_rest_shape st pk (M : bytes -> bool) (fk fv : bytes -> bytes) names :
+  (forall n, In n names ->
+     if M n then fs_decode_key false (d_base st) (elem_key n) = Some (fk n)
+                 /\ is_prefix pk (hd 0 (elem_key n) :: fk n) = true
+                 /\ fs_get false st (fk n) = DVal (fv n)
+     else forall kk, fs_decode_key false (d_base st) (elem_key n) = Some kk ->
+                     is_prefix pk (hd 0 (elem_key n) :: kk) = false) ->
+  fs_dump_rest false st pk names = map (fun n => (fk n, fv n)) (takew M names).
+Proof.
+  induction names as [|n r IH]; intros H; [reflexivity|].
+  cbn [fs_dump_rest takew]. pose proof (H n (or_introl eq_refl)) as Hn.
+  destruct (M n) eqn:Em.
+  - destruct Hn as [Hd [Hp Hg]]. rewrite Hd, Hp, Hg. cbn [map]. f_equal. apply IH.
+    intros m Hm. apply H. right. exact Hm.
+  - destruct (fs_decode_key false (d_base st) (elem_key n)) as [kk|] eqn:Ed; [|reflexivity].
+    rewrite (Hn kk eq_refl). reflexivity.
+Qed.
+
+Lemma dump_first_shape st pk (M : bytes -> bool) (fk fv : bytes -> bytes) names :
+  (forall n, In n names ->
+     if M n then (len (elem_key n) <? len pk) = false
+                 /\ fs_decode_key false (d_base st) (elem_key n) = Some (fk n)
+                 /\ is_prefix pk (hd 0 (elem_key n) :: fk n) = true
+                 /\ fs_get false st (fk n) = DVal (fv n)
+     else forall kk, fs_decode_key false (d_base st) (elem_key n) = Some kk ->
+                     is_prefix pk (hd 0 (elem_key n) :: kk) = false) ->
+  fs_dump_first false st pk names
+  = match skipw M names with
+    | [] => DErr ENotFound
+    | n :: r => DDump ((fk n, fv n) :: fs_dump_rest false st pk r)
+    end.
+Proof.
+  induction names as [|n r IH]; intros H; [reflexivity|].
+  cbn [fs_dump_first skipw]. pose proof (H n (or_introl eq_refl)) as Hn.
+  assert (Hr : forall m, In m r -> if M m then (len (elem_key m) <? len pk) = false
+                 /\ fs_decode_key false (d_base st) (elem_key m) = Some (fk m)
+                 /\ is_prefix pk (hd 0 (elem_key m) :: fk m) = true
+                 /\ fs_get false st (fk m) = DVal (fv m)
+     else forall kk, fs_decode_key false (d_base st) (elem_key m) = Some kk ->
+                     is_prefix pk (hd 0 (elem_key m) :: kk) = false)
+    by (intros m Hm; apply H; right; exact Hm).
+  destruct (M n) eqn:Em.
+  - destruct Hn as [Hl [Hd [Hp Hg]]]. rewrite Hl, Hd, Hp, Hg. reflexivity.
+  - destruct (len (elem_key n) <? len pk); [apply IH; exact Hr|].
+    destruct (fs_decode_key false (d_base st) (elem_key n)) as [kk|] eqn:Ed; [|apply IH; exact Hr].
+    rewrite (Hn kk eq_refl). apply IH; exact Hr.
+Qed.
+
+(* ---- list facts ---------------------------------------------------------------------------------------------- *)
+Lemma is_prefix_app x y : is_prefix x (x ++ y) = true.
+Proof. induction x as [|c x IH]; [reflexivity|]. cbn [app is_prefix]. rewrite N.eqb_refl. exact IH. Qed.
+Lemma is_prefix_app_same x p k : is_prefix (x ++ p) (x ++ k) = is_prefix p k.
+Proof. induction x as [|c x IH]; [reflexivity|]. cbn [app is_prefix]. rewrite N.eqb_refl. exact IH. Qed.
+Lemma is_prefix_exists x : forall y, is_prefix x y = true -> exists z, y = x ++ z.
+Proof.
+  induction x as [|c x IH]; intros y H; [exists y; reflexivity|].
+  destruct y as [|d y]; [discriminate|]. cbn [is_prefix] in H. apply andb_true_iff in H as [H1 H2].
+  apply N.eqb_eq in H1. subst d. destruct (IH y H2) as [z ->]. exists z. reflexivity.
+Qed.
+Lemma is_prefix_app_l x p : forall y, is_prefix (x ++ p) y = true -> is_prefix x y = true.
+Proof.
+  induction x as [|c x IH]; intros y H; [reflexivity|].
+  destruct y as [|d y]; [discriminate|]. cbn [app is_prefix] in *. apply andb_true_iff in H as [H1 H2].
+  rewrite H1. cbn [andb]. apply IH. exact H2.
+Qed.
+Lemma is_prefix_len p k : is_prefix p k = true -> len p <= len k.
+Proof. intros H. apply is_prefix_exists in H as [z ->]. rewrite len_app. lia. Qed.
+
+Lemma in_alookup_nodup {V} (l : list (bytes * V)) k v : NoDup (map fst l) -> In (k, v) l -> alookup k l = Some v.
+Proof.
+  induction l as [|[k' v'] l IH]; intros Hd Hin; [destruct Hin|].
+  cbn [map fst] in Hd. inversion Hd as [|? ? Hn Hd']; subst. cbn [alookup]. destruct Hin as [E|Hin].
+  - injection E as -> ->. rewrite bytes_eqb_refl. reflexivity.
+  - destruct (bytes_eqb k k') eqn:E; [|apply IH; assumption].
+    exfalso. apply beq_true in E. subst k'. apply Hn. apply (in_map fst) in Hin. exact Hin.
+Qed.
+Lemma nodup_aset {V} k (v : V) l : NoDup (map fst l) -> NoDup (map fst (aset k v l)).
+Proof.
+  induction l as [|[k' v'] l IH]; cbn [aset map fst]; intros H.
+  - constructor; [intros []|constructor].
+  - inversion H as [|? ? Hn Hd]; subst. destruct (bytes_eqb k k') eqn:E; cbn [map fst].
+    + apply beq_true in E. subst k'. constructor; assumption.
+    + constructor; [|apply IH; exact Hd]. intros Hin. apply Hn.
+      clear -Hin E. induction l as [|[k2 v2] l IH]; cbn [aset map fst In] in *.
+      * destruct Hin as [->|[]]. rewrite bytes_eqb_refl in E. discriminate.
+      * destruct (bytes_eqb k k2) eqn:E2; cbn [map fst In] in Hin.
+        -- apply beq_true in E2. subst k2. destruct Hin as [->|Hin]; [rewrite bytes_eqb_refl in E; discriminate|auto].
+        -- destruct Hin as [->|Hin]; auto.
+Qed.
+Lemma slookup_in a m v : slookup a m = Some v -> In (a, v) m.
+Proof.
+  induction m as [|[a' v'] m IH]; cbn [slookup]; [discriminate|].
+  destruct (akey_eqb a a') eqn:E; intros H.
+  - apply akey_eqb_eq in E. subst a'. injection H as ->. left. reflexivity.
+  - right. apply IH. exact H.
+Qed.
+Lemma NoDup_map_inj_in {A B} (g : A -> B) (l : list A) :
+  (forall x y, In x l -> In y l -> g x = g y -> x = y) -> NoDup l -> NoDup (map g l).
+Proof.
+  induction l as [|x l IH]; intros Hi Hd; [constructor|]. inversion Hd as [|? ? Hn Hd']; subst. cbn [map]. constructor.
+  - intros Hin. apply in_map_iff in Hin as [y [Hy Hin]]. apply Hn.
+    rewrite (Hi x y) ; auto; [left; reflexivity|right; exact Hin].
+  - apply IH; [|exact Hd']. intros a b Ha Hb. apply Hi; right; assumption.
+Qed.
+Lemma NoDup_filter {A} (P : A -> bool) (l : list A) : NoDup l -> NoDup (filter P l).
+Proof.
+  induction l as [|x l IH]; intros H; [constructor|]. inversion H; subst. cbn [filter]. destruct (P x).
+  - constructor; [|apply IH; assumption]. intros Hin. apply filter_In in Hin as [Hin _]. contradiction.
+  - apply IH. assumption.
+Qed.
+
+(* ---- a stronger invariant of fs histories (text mode): every file is the entry of a well-formed key ------ *)
+Definition alt_of (a : akey) : bytes := fs_alt_name (a_typ a) (enc_a a).
+Definition fs_wf2 (a : akey) : bool :=
+  fs_wf false a && name_plain (alt_of a) && no_legacy_clash (alt_of a) && negb (is_nil (a_key a)).
+
+Definition rel2 (st : dbstate) (sp : spec) : Prop :=
+  fs_rel false st sp
+  /\ (forall a v, In (a, v) (sp_map sp) -> fs_wf2 a = true)
+  /\ (forall p v, In (p, v) (d_store st) -> exists a, fs_wf2 a = true /\ p = path_str (d_dir st ++ [nm false a]))
+  /\ NoDup (map fst (d_store st)).
+
+Definition put_key_nonempty (o : dbop) : bool := match o with OPut k _ => negb (is_nil k) | _ => true end.
+
+Lemma fs_put_shape st sp k v :
+  fs_rel false st sp -> fs_op_ok false (sp_base sp) (OPut k v) = true ->
+  (fst (fs_put false st k v) = st /\ fst (spec_put sp k v) = sp)
+  \/ (let a0 := ctx_akey (sp_base sp) (eff_lang (sp_base sp)) k in
+      fs_wf false a0 = true /\ name_plain (alt_of a0) = true /\ no_legacy_clash (alt_of a0) = true
+      /\ fst (fs_put false st k v) = with_store st (aset (path_str (d_dir st ++ [nm false a0])) v (d_store st))
+      /\ fst (spec_put sp k v) = mkSpec (sp_base sp) ((a0, v) :: sp_map sp)).
+Proof.
+  intros R Hok. pose proof R as [Hb [Hd [Hc [Hp [Hm Hf]]]]]. cbn [fs_op_ok] in Hok.
+  unfold fs_put, spec_put. rewrite Hb, check_put_model.
+  destruct (check_put (sp_base sp)); cbn [negb]; [|left; auto].
+  destruct (b_pfx (sp_base sp) =? DATATYPE_UNKNOWN) eqn:Ep.
+  - apply N.eqb_eq in Ep. unfold fs_to_key, to_key. cbn [model_base b_pfx]. rewrite Ep.
+    change (DATATYPE_UNKNOWN =? DATATYPE_UNKNOWN) with true. left. auto.
+  - apply N.eqb_neq in Ep. destruct Hp as [Hp|Hp]; [contradiction|]. right.
+    rewrite (fs_to_key_model false _ k Ep Hc). cbn [lk_default lk_translation].
+    destruct (fs_guard_spec false _ k Ep Hp Hc Hok) as [Gd Gt].
+    set (a0 := ctx_akey (sp_base sp) (eff_lang (sp_base sp)) k).
+    assert (G0 : fs_wf false a0 = true /\ name_plain (nm false a0) = true
+                 /\ name_plain (alt_of a0) = true /\ no_legacy_clash (alt_of a0) = true).
+    { subst a0. destruct (eff_lang (sp_base sp)) as [c|] eqn:El.
+      - destruct (Gt c eq_refl) as [W [P [A C]]]. auto.
+      - destruct Gd as [W [P [A C]]]. auto. }
+    destruct G0 as [W0 [P0 [A0 C0]]].
+    assert (Hsk : fs_name (match option_map (fun c => enc_a (fs_a false (ctx_akey (sp_base sp) (Some c) k))) (eff_lang (sp_base sp)) with
+                  | Some t => t | None => enc_a (fs_a false (ctx_akey (sp_base sp) None k)) end) = nm false a0).
+    { subst a0. destruct (eff_lang (sp_base sp)); reflexivity. }
+    rewrite Hsk, (clean_join_plain _ _ P0), (fs_write_child st _ v Hd P0). cbn [fst].
+    repeat split; assumption.
+Qed.
+
+Lemma rel2_step st sp o :
+  rel2 st sp -> fs_op_ok false (sp_base sp) o = true -> put_key_nonempty o = true ->
+  rel2 (fst (db_step (BFs false) st o)) (fst (spec_step sp o)).
+Proof.
+  intros [R [Hmw [Hfw Hnd]]] Hok Hne.
+  pose proof (fs_step_refines false st sp o R Hok) as [R' _].
+  split; [exact R'|].
+  destruct o as [k v|k|p|s|l|p lk|k|k]; try (cbn [fs_op_ok] in Hok; discriminate);
+    try (cbn [db_step spec_step fst with_base d_store d_dir sp_map]; auto).
+  - (* Put *)
+    cbn [db_step spec_step]. destruct (fs_put_shape st sp k v R Hok) as [[E1 E2]|[W [A [C [E1 E2]]]]].
+    + rewrite E1, E2. auto.
+    + rewrite E1, E2. cbn [with_store d_store d_dir sp_map].
+      set (a0 := ctx_akey (sp_base sp) (eff_lang (sp_base sp)) k) in *.
+      assert (W2 : fs_wf2 a0 = true).
+      { unfold fs_wf2. rewrite W, A, C. cbn [andb]. subst a0. cbn [ctx_akey a_key]. exact Hne. }
+      split; [|split].
+      * intros a w [E|Hin]; [injection E as <- _; exact W2|eapply Hmw; exact Hin].
+      * intros p w Hin. apply in_aset in Hin as [E|Hin]; [|apply Hfw in Hin; exact Hin].
+        injection E as -> _. exists a0. auto.
+      * apply nodup_aset. exact Hnd.
+  - (* SetLock *)
+    cbn [db_step spec_step]. destruct (set_lock (d_base st) p lk). destruct (set_lock (sp_base sp) p lk).
+    cbn [fst with_base d_store d_dir sp_map]. auto.
+Qed.
+
+Lemma rel2_run : forall ops st sp,
+  rel2 st sp -> fs_hist_ok false sp ops = true -> forallb put_key_nonempty ops = true ->
+  rel2 (fst (db_run (BFs false) st ops)) (fst (spec_run sp ops)).
+Proof.
+  induction ops as [|o ops IH]; intros st sp R Hok Hne; [exact R|].
+  cbn [fs_hist_ok forallb] in Hok, Hne. apply andb_true_iff in Hok as [Ho Hr]. apply andb_true_iff in Hne as [Hn Hnr].
+  pose proof (rel2_step st sp o R Ho Hn) as R'.
+  cbn [db_run spec_run]. destruct (db_step (BFs false) st o) as [st' x]. destruct (spec_step sp o) as [sp' x'].
+  cbn [fst] in R', Hr. specialize (IH st' sp' R' Hr Hnr).
+  destruct (db_run (BFs false) st' ops). destruct (spec_run sp' ops). exact IH.
+Qed.
+
+Lemma rel2_init dir : dir_ok dir = true -> rel2 (db_init dir) spec_init.
+Proof.
+  intros Hd. split.
+  - split; [reflexivity|]. split; [exact Hd|]. split; [split; [reflexivity|exact I]|].
+    split; [left; reflexivity|]. split; [intros a _; reflexivity|]. intros p v [].
+  - split; [intros a v []|]. split; [intros p v []|constructor].
+Qed.
+
+(* ---- os.ReadDir of the store directory ------------------------------------------------------------------------ *)
+Lemma dir_pref_eq dir : dir <> [] -> dir_pref dir = path_str dir ++ [ch_slash].
+Proof.
+  induction dir as [|c d IH]; [congruence|]. intros _. destruct d as [|c' d'].
+  - unfold dir_pref, path_str. cbn [map List.concat join_with]. rewrite app_nil_r. reflexivity.
+  - change (path_str (c :: c' :: d')) with (c ++ [ch_slash] ++ path_str (c' :: d')).
+    unfold dir_pref in *. cbn [map List.concat] in *. rewrite IH by discriminate. rewrite <- !app_assoc. reflexivity.
+Qed.
+
+Lemma child_name_plain dir n : name_plain n = true ->
+  child_name (dir_pref dir) (path_str (dir ++ [n])) = Some n.
+Proof.
+  intros H. apply name_plain_spec in H as [Hn [Hs _]].
+  unfold child_name. rewrite path_str_snoc, is_prefix_app, (drop_app_exact _ _ _ eq_refl).
+  destruct n; [congruence|]. cbn [is_nil orb]. rewrite Hs. reflexivity.
+Qed.
+
+Definition children (dirstr : bytes) (store : list (bytes * bytes)) : list (bytes * unit) :=
+  fold_right (fun kv acc => match child_name dirstr (fst kv) with Some n => (n, tt) :: acc | None => acc end) [] store.
+
+Lemma children_in dir store n :
+  (forall p v, In (p, v) store -> exists m, name_plain m = true /\ p = path_str (dir ++ [m])) ->
+  (In n (map fst (children (dir_pref dir) store)) <-> exists v, In (path_str (dir ++ [n]), v) store).
+Proof.
+  intros Hw. induction store as [|[p v] store IH]; cbn [children fold_right map fst In].
+  - split; [intros []|intros [v []]].
+  - assert (Hw' : forall p v, In (p, v) store -> exists m, name_plain m = true /\ p = path_str (dir ++ [m]))
+      by (intros p' v' H; apply (Hw p' v'); right; exact H).
+    specialize (IH Hw'). fold (children (dir_pref dir) store).
+    destruct (Hw p v (or_introl eq_refl)) as [m [Hm ->]]. cbn [fst]. rewrite (child_name_plain dir m Hm).
+    cbn [map fst In]. rewrite IH. split.
+    + intros [->|[w Hin]]; [exists v; left; reflexivity|exists w; right; exact Hin].
+    + intros [w [E|Hin]]; [|right; exists w; exact Hin]. injection E as E _. apply path_str_inj in E. left. exact E.
+Qed.
+
+Lemma children_nodup dir store :
+  (forall p v, In (p, v) store -> exists m, name_plain m = true /\ p = path_str (dir ++ [m])) ->
+  NoDup (map fst store) -> NoDup (map fst (children (dir_pref dir) store)).
+Proof.
+  intros Hw Hd. induction store as [|[p v] store IH]; cbn [children fold_right map fst]; [constructor|].
+  assert (Hw' : forall p v, In (p, v) store -> exists m, name_plain m = true /\ p = path_str (dir ++ [m]))
+    by (intros p' v' H; apply (Hw p' v'); right; exact H).
+  cbn [map fst] in Hd. inversion Hd as [|? ? Hn Hd']; subst. fold (children (dir_pref dir) store).
+  destruct (Hw p v (or_introl eq_refl)) as [m [Hm ->]]. cbn [fst]. rewrite (child_name_plain dir m Hm).
+  cbn [map fst]. constructor; [|apply IH; assumption].
+  intros Hin. apply (children_in dir store m Hw') in Hin as [w Hin]. apply Hn.
+  apply (in_map fst) in Hin. exact Hin.
+Qed.
+
+Lemma fs_wf2_plain a : fs_wf2 a = true -> name_plain (nm false a) = true.
+Proof.
+  unfold fs_wf2, fs_wf. intros H. repeat (apply andb_true_iff in H as [H ?]). assumption.
+Qed.
+
+Lemma readdir_facts st sp : rel2 st sp -> d_dir st <> [] ->
+  sorted (fs_readdir st) /\ NoDup (fs_readdir st)
+  /\ (forall n, In n (fs_readdir st) <-> exists v, In (path_str (d_dir st ++ [n]), v) (d_store st)).
+Proof.
+  intros [R [Hmw [Hfw Hnd]]] Hne.
+  assert (Hw : forall p v, In (p, v) (d_store st) -> exists m, name_plain m = true /\ p = path_str (d_dir st ++ [m])).
+  { intros p v Hin. destruct (Hfw p v Hin) as [a [Wa ->]]. exists (nm false a). split; [apply fs_wf2_plain; exact Wa|reflexivity]. }
+  unfold fs_readdir. rewrite <- (dir_pref_eq _ Hne). fold (children (dir_pref (d_dir st)) (d_store st)).
+  split; [apply asort_sorted|]. split; [apply asort_nodup; apply children_nodup; assumption|].
+  intros n. rewrite asort_keys. apply children_in. exact Hw.
+Qed.
+
+(* ---- the guard of the listing theorem ------------------------------------------------------------------------ *)
+Definition is_none {A} (o : option A) : bool := match o with None => true | Some _ => false end.
+(* documented type; default language; no translation stored for this type; a session id is set
+   exactly when the type is sessioned *)
+Definition dump_ok (sp : spec) : bool :=
+  let b := sp_base sp in
+  documented_type (b_pfx b) && is_none (b_lang b)
+  && (if sessioned (b_pfx b) then negb (is_nil (b_sid b)) else is_nil (b_sid b))
+  && forallb (fun e : akey * bytes => negb ((a_typ (fst e) =? b_pfx b) && negb (is_none (a_lang (fst e))))) (sp_map sp).
+
+Definition dq0 (b : base) : bytes :=
+  w8 (b_pfx b + fs_type_offset) :: (if sessioned (b_pfx b) then sid_enc (b_sid b) else []).
+Definition dM (b : base) (p n : bytes) : bool := is_prefix (dq0 b ++ p) n.
+
+Lemma dump_ok_spec sp : dump_ok sp = true ->
+  documented_type (b_pfx (sp_base sp)) = true /\ b_lang (sp_base sp) = None
+  /\ (if sessioned (b_pfx (sp_base sp)) then b_sid (sp_base sp) <> [] else b_sid (sp_base sp) = [])
+  /\ (forall a v, In (a, v) (sp_map sp) -> a_typ a = b_pfx (sp_base sp) -> a_lang a = None).
+Proof.
+  unfold dump_ok. intros H. apply andb_true_iff in H as [H H4]. apply andb_true_iff in H as [H H3].
+  apply andb_true_iff in H as [H1 H2]. split; [exact H1|]. split; [destruct (b_lang (sp_base sp)); [discriminate|reflexivity]|].
+  split.
+  - destruct (sessioned (b_pfx (sp_base sp))); destruct (b_sid (sp_base sp)); try discriminate; congruence.
+  - intros a v Hin Ht. rewrite forallb_forall in H4. specialize (H4 _ Hin). cbn [fst] in H4.
+    rewrite Ht, N.eqb_refl in H4. cbn [andb] in H4. destruct (a_lang a); [discriminate|reflexivity].
+Qed.
+
+Lemma same_space_eq b a : same_space b a = true -> a_lang a = None -> a = ctx_akey b None (a_key a).
+Proof.
+  destruct a as [t s l k]. unfold same_space, ctx_akey. cbn [a_typ a_sess a_lang a_key]. intros H ->.
+  apply andb_true_iff in H as [H1 H2]. apply N.eqb_eq in H1. apply obytes_eqb_eq in H2. subst. reflexivity.
+Qed.
+Lemma same_space_ctx b k : same_space b (ctx_akey b None k) = true.
+Proof.
+  unfold same_space, ctx_akey. cbn [a_typ a_sess]. rewrite N.eqb_refl. apply obytes_eqb_eq. reflexivity.
+Qed.
+
+Lemma elem_key_nm a : documented_type (a_typ a) = true -> elem_key (nm false a) = enc_a a.
+Proof.
+  intros H. rewrite nm_unfold, enc_a_unfold. cbn [elem_key]. f_equal.
+  apply documented_cases in H. destruct H as [H|[H|[H|[H|[H|H]]]]]; rewrite H; reflexivity.
+Qed.
+
+Lemma wf_akey_fs_a a : wf_akey (fs_a false a) = wf_akey a.
+Proof. destruct a; reflexivity. Qed.
+
+Lemma fs_wf2_spec a : fs_wf2 a = true ->
+  wf_akey a = true /\ documented_type (a_typ a) = true /\ name_plain (nm false a) = true
+  /\ name_plain (alt_of a) = true /\ no_legacy_clash (alt_of a) = true /\ a_key a <> [] /\ fs_wf false a = true.
+Proof.
+  unfold fs_wf2. intros H. apply andb_true_iff in H as [H H4]. apply andb_true_iff in H as [H H3].
+  apply andb_true_iff in H as [H1 H2]. pose proof H1 as W. unfold fs_wf in H1.
+  apply andb_true_iff in H1 as [H1 Hp]. apply andb_true_iff in H1 as [H1 Hd]. apply andb_true_iff in H1 as [Hw _].
+  rewrite wf_akey_fs_a in Hw.
+  split; [exact Hw|]. split; [exact Hd|]. split; [exact Hp|]. split; [exact H2|]. split; [exact H3|].
+  split; [|exact W]. destruct (a_key a); [discriminate|congruence].
+Qed.
+
+Lemma a_sk_nonempty a : a_key a <> [] -> a_sk a <> [].
+Proof.
+  unfold a_sk. destruct (sessioned (a_typ a)); [|auto]. intros H E. apply app_eq_nil in E as [_ E]. contradiction.
+Qed.
+
+Lemma from_db_key_default a : wf_akey a = true -> a_lang a = None -> a_key a <> [] ->
+  from_db_key (enc_a a) = Ok (a_sk a).
+Proof.
+  intros W Hl Hk. rewrite enc_a_unfold, Hl. cbn [lang_suffix]. rewrite app_nil_r.
+  pose proof (a_sk_nonempty a Hk) as Hne. destruct (a_sk a) as [|x r] eqn:Er; [congruence|].
+  cbn [from_db_key]. destruct (lang_type (a_typ a)) eqn:Et; [|reflexivity]. cbn [andb].
+  unfold wf_akey in W. apply andb_true_iff in W as [_ W]. rewrite Et, Hl, Er in W.
+  unfold no_lang_suffix in W. apply negb_true_iff in W.
+  destruct (6 <? len (x :: r)) eqn:E6; [|reflexivity]. cbn [andb].
+  replace (4 <=? len (x :: r)) with true in W by (symmetry; apply N.leb_le; lia). cbn [andb] in W.
+  rewrite W. reflexivity.
+Qed.
+
+(* a sessioned entry lies under the session prefix "s." exactly when it belongs to session s *)
+Lemma session_prefix s a :
+  s <> [] -> dot_free s = true -> wf_akey a = true -> sessioned (a_typ a) = true ->
+  is_prefix (sid_enc s) (a_sk a) = true -> a_sess a = Some s.
+Proof.
+  intros Hs Hd W Ht H. unfold a_sk in H. rewrite Ht in H. unfold wf_akey in W. apply andb_true_iff in W as [W _].
+  rewrite Ht in W. destruct (a_sess a) as [s'|] eqn:Es; [|discriminate]. unfold a_sid in H. rewrite Es in H.
+  apply andb_true_iff in W as [Wd Wk]. apply is_prefix_exists in H as [z H].
+  rewrite (sid_enc_nonempty s Hs) in H. rewrite <- app_assoc in H. cbn [app] in H.
+  destruct s' as [|c s'].
+  - cbn [sid_enc app is_nil] in *. rewrite H in Wk. rewrite dot_free_app_dot in Wk. discriminate.
+  - rewrite (sid_enc_nonempty (c :: s')) in H by discriminate. rewrite <- app_assoc in H. cbn [app] in H.
+    change (c :: s' ++ ch_dot :: a_key a) with ((c :: s') ++ ch_dot :: a_key a) in H.
+    apply first_dot_split in H; auto. destruct H as [-> _]. reflexivity.
+Qed.
+
+Lemma wf_akey_key_ok b k : wf_akey (ctx_akey b None k) = true -> key_ok b k = true.
+Proof.
+  unfold wf_akey, key_ok. intros W. apply andb_true_iff in W as [W1 W2].
+  rewrite ctx_akey_sk in W2. unfold ctx_akey in W1, W2. cbn [a_typ a_sess a_lang a_key] in W1, W2.
+  apply andb_true_iff. split.
+  - destruct (sessioned (b_pfx b)); [|reflexivity]. apply andb_true_iff in W1 as [_ W1].
+    cbn [andb]. destruct (is_nil (b_sid b)); [exact W1|reflexivity].
+  - destruct (lang_type (b_pfx b)); [exact W2|reflexivity].
+Qed.
+
+Lemma fs_get_in_space st sp k v :
+  rel2 st sp -> dump_ok sp = true -> fs_wf2 (ctx_akey (sp_base sp) None k) = true ->
+  slookup (ctx_akey (sp_base sp) None k) (sp_map sp) = Some v ->
+  fs_get false st k = DVal v.
+Proof.
+  intros [R _] Hok W2 Hs. pose proof R as [Hb [Hd [Hc [Hp _]]]].
+  apply dump_ok_spec in Hok as [Hdoc [Hl _]].
+  apply fs_wf2_spec in W2 as [Wa [_ [Pn [Pa [Ca _]]]]].
+  assert (Hp0 : b_pfx (sp_base sp) <> 0).
+  { apply documented_cases in Hdoc. lia. }
+  assert (El : eff_lang (sp_base sp) = None) by (unfold eff_lang; rewrite Hl; destruct (lang_type _); reflexivity).
+  rewrite (fs_get_refines false st sp k R).
+  - unfold spec_get. replace (b_pfx (sp_base sp) =? DATATYPE_UNKNOWN) with false by (symmetry; apply N.eqb_neq; exact Hp0).
+    rewrite El, Hs. reflexivity.
+  - cbn [fs_op_ok]. rewrite (wf_akey_key_ok _ _ Wa). cbn [andb].
+    unfold fs_key_ok. rewrite (fs_to_key_model false _ k Hp0 Hc), El. cbn [option_map].
+    unfold fs_lk_ok. cbn [lk_default lk_translation]. rewrite andb_true_r.
+    change (fs_name (enc_a (fs_a false (ctx_akey (sp_base sp) None k)))) with (nm false (ctx_akey (sp_base sp) None k)).
+    change (fs_alt_name (b_pfx (sp_base sp)) (enc_a (fs_a false (ctx_akey (sp_base sp) None k))))
+      with (alt_of (ctx_akey (sp_base sp) None k)).
+    rewrite Pn, Pa, Ca. reflexivity.
+Qed.
+
+(* the name of an entry of the current (type, session), default language *)
+Lemma nm_in_space b a : same_space b a = true -> a_lang a = None -> nm false a = dq0 b ++ a_key a.
+Proof.
+  intros Hs Hl. rewrite (same_space_eq b a Hs Hl) at 1. rewrite nm_unfold. unfold dq0, a_sk, fs_a, ctx_akey, a_sid.
+  cbn [a_typ a_sess a_lang a_key lang_suffix]. rewrite app_nil_r.
+  destruct (sessioned (b_pfx b)); reflexivity.
+Qed.
+
+Lemma decode_default st sp a :
+  fs_rel false st sp -> dump_ok sp = true -> fs_wf2 a = true -> a_lang a = None ->
+  fs_decode_key false (d_base st) (elem_key (nm false a))
+  = match from_session_key (model_base (sp_base sp)) (a_sk a) with Ok kk => Some kk | _ => None end.
+Proof.
+  intros [Hb _] _ W Hl. apply fs_wf2_spec in W as [Wa [Hd [_ [_ [_ [Hk _]]]]]].
+  rewrite (elem_key_nm a Hd). unfold fs_decode_key, decode_key. rewrite (from_db_key_default a Wa Hl Hk).
+  cbn [obind]. rewrite Hb. reflexivity.
+Qed.
+
+Lemma name_facts st sp p a v :
+  rel2 st sp -> dump_ok sp = true -> fs_wf2 a = true -> slookup a (sp_map sp) = Some v ->
+  let b := sp_base sp in let n := nm false a in
+  if dM b p n then
+    same_space b a = true /\ a_lang a = None /\ is_prefix p (a_key a) = true
+    /\ (len (elem_key n) <? len (b_pfx b :: p)) = false
+    /\ fs_decode_key false (d_base st) (elem_key n) = Some (a_key a)
+    /\ is_prefix (b_pfx b :: p) (hd 0 (elem_key n) :: a_key a) = true
+    /\ fs_get false st (a_key a) = DVal v
+  else
+    (forall kk, fs_decode_key false (d_base st) (elem_key n) = Some kk ->
+                is_prefix (b_pfx b :: p) (hd 0 (elem_key n) :: kk) = false)
+    /\ (same_space b a = true -> is_prefix p (a_key a) = false).
+Proof.
+  intros R2 Hok W2 Hs. cbv zeta. pose proof R2 as [R [Hmw _]]. pose proof R as [Hb [_ [[Hdf _] _]]].
+  pose proof (dump_ok_spec sp Hok) as [Hdoc [Hl [Hsid Hg2]]].
+  pose proof (fs_wf2_spec a W2) as [Wa [Hda [_ [_ [_ [Hk _]]]]]].
+  pose proof (slookup_in _ _ _ Hs) as Hin.
+  set (b := sp_base sp) in *. set (n := nm false a) in *.
+  assert (Hek : elem_key n = enc_a a) by (apply elem_key_nm; exact Hda).
+  assert (Hhd : hd 0 (elem_key n) = a_typ a) by (rewrite Hek; reflexivity).
+  destruct (same_space b a) eqn:Esp.
+  - (* an entry of the current space *)
+    assert (Ht : a_typ a = b_pfx b).
+    { unfold same_space in Esp. apply andb_true_iff in Esp as [E _]. apply N.eqb_eq in E. exact E. }
+    assert (Hla : a_lang a = None) by (apply (Hg2 a v Hin Ht)).
+    assert (Hn : n = dq0 b ++ a_key a) by (apply nm_in_space; assumption).
+    assert (HM : dM b p n = is_prefix p (a_key a)) by (unfold dM; rewrite Hn; apply is_prefix_app_same).
+    assert (Hdec : fs_decode_key false (d_base st) (elem_key n) = Some (a_key a)).
+    { unfold n. rewrite (decode_default st sp a R Hok W2 Hla).
+      unfold from_session_key. cbn [model_base b_sid]. unfold a_sk. rewrite Ht.
+      pose proof (same_space_eq b a Esp Hla) as Ea.
+      destruct (sessioned (b_pfx b)) eqn:Ese.
+      - assert (Hsa : a_sid a = b_sid b) by (rewrite Ea; unfold ctx_akey, a_sid; cbn [a_sess]; rewrite Ese; reflexivity).
+        rewrite Hsa. fold b. destruct (sid_enc (b_sid b)) as [|c r] eqn:Esid.
+        + exfalso. destruct (b_sid b) as [|c s]; [congruence|]. rewrite sid_enc_nonempty in Esid by discriminate.
+          destruct s; discriminate.
+        + rewrite <- Esid. rewrite is_prefix_app, (drop_app_exact _ _ _ eq_refl). reflexivity.
+      - fold b. rewrite Hsid. reflexivity. }
+    rewrite HM. destruct (is_prefix p (a_key a)) eqn:Ep.
+    + repeat split; auto.
+      * apply N.ltb_ge. rewrite Hek, enc_a_unfold, !len_cons, len_app.
+        pose proof (is_prefix_len _ _ Ep). unfold a_sk. destruct (sessioned (a_typ a)); rewrite ?len_app; lia.
+      * rewrite Hhd, Ht. cbn [is_prefix]. rewrite N.eqb_refl. exact Ep.
+      * apply (fs_get_in_space st sp (a_key a) v R2 Hok).
+        -- fold b. rewrite <- (same_space_eq b a Esp Hla). exact W2.
+        -- fold b. rewrite <- (same_space_eq b a Esp Hla). exact Hs.
+    + split; [|auto]. intros kk Hkk. rewrite Hdec in Hkk. injection Hkk as <-.
+      rewrite Hhd, Ht. cbn [is_prefix]. rewrite N.eqb_refl. exact Ep.
+  - (* an entry of another type or session *)
+    assert (HM : dM b p n = false /\ (forall kk, fs_decode_key false (d_base st) (elem_key n) = Some kk ->
+                is_prefix (b_pfx b :: p) (hd 0 (elem_key n) :: kk) = false)).
+    { destruct (a_typ a =? b_pfx b) eqn:Et.
+      - apply N.eqb_eq in Et. assert (Hla : a_lang a = None) by (apply (Hg2 a v Hin Et)).
+        unfold same_space in Esp. rewrite Et, N.eqb_refl in Esp. cbn [andb] in Esp.
+        destruct (sessioned (b_pfx b)) eqn:Ese.
+        + (* another session *)
+          assert (Hnp : is_prefix (sid_enc (b_sid b)) (a_sk a) = false).
+          { destruct (is_prefix (sid_enc (b_sid b)) (a_sk a)) eqn:E; [|reflexivity]. exfalso.
+            apply session_prefix in E; auto; [|rewrite Et; exact Ese]. rewrite E in Esp.
+            rewrite (proj2 (obytes_eqb_eq _ _) eq_refl) in Esp. discriminate. }
+          split.
+          * unfold dM, dq0. fold b. rewrite Ese. unfold n. rewrite nm_unfold, Hla. cbn [lang_suffix]. rewrite app_nil_r.
+            cbn [app is_prefix]. destruct (is_prefix (sid_enc (b_sid b) ++ p) (a_sk (fs_a false a))) eqn:E; [|apply andb_false_r].
+            apply is_prefix_app_l in E. replace (a_sk (fs_a false a)) with (a_sk a) in E by (destruct a; reflexivity). congruence.
+          * intros kk Hkk. unfold n in Hkk. rewrite (decode_default st sp a R Hok W2 Hla) in Hkk.
+            unfold from_session_key in Hkk. cbn [model_base b_sid] in Hkk. fold b in Hkk.
+            destruct (sid_enc (b_sid b)) as [|c r] eqn:Esid.
+            -- exfalso. destruct (b_sid b) as [|c s]; [congruence|]. rewrite sid_enc_nonempty in Esid by discriminate.
+               destruct s; discriminate.
+            -- rewrite Hnp in Hkk. discriminate.
+        + (* an unsessioned type has a single space *)
+          exfalso. unfold wf_akey in Wa. apply andb_true_iff in Wa as [Wa _]. rewrite Et, Ese in Wa.
+          destruct (a_sess a); [discriminate|]. discriminate.
+      - (* another type: the first byte differs *)
+        apply N.eqb_neq in Et. split.
+        + unfold dM, dq0, n. rewrite nm_unfold. cbn [app is_prefix].
+          replace (w8 (b_pfx b + fs_type_offset) =? w8 (a_typ a + fs_type_offset)) with false; [reflexivity|].
+          symmetry. apply N.eqb_neq. intros E. apply w8_type_inj in E; auto.
+        + intros kk _. rewrite Hhd. cbn [is_prefix].
+          replace (b_pfx b =? a_typ a) with false; [reflexivity|]. symmetry. apply N.eqb_neq. congruence. }
+    destruct HM as [HM Hdec]. rewrite HM. split; [exact Hdec|discriminate].
+Qed.
+
+Lemma skipw_head P l n r : skipw P l = n :: r -> P n = true /\ (forall m, In m r -> In m l) /\ In n l.
+Proof.
+  induction l as [|x l IH]; cbn [skipw]; [discriminate|]. destruct (P x) eqn:E.
+  - intros H. injection H as -> ->. split; [exact E|]. split; [intros m Hm; right; exact Hm|left; reflexivity].
+  - intros H. destruct (IH H) as [H1 [H2 H3]]. split; [exact H1|]. split; [intros m Hm; right; apply H2; exact Hm|right; exact H3].
+Qed.
+
+(* every name in the directory is the name of a well-formed entry of the reference map, and conversely *)
+Lemma names_repr st sp n : rel2 st sp -> d_dir st <> [] -> In n (fs_readdir st) ->
+  exists a v, fs_wf2 a = true /\ n = nm false a /\ slookup a (sp_map sp) = Some v.
+Proof.
+  intros R2 Hne Hin. pose proof R2 as [R [Hmw [Hfw Hnd]]]. pose proof R as [_ [_ [_ [_ [Hm _]]]]].
+  destruct (readdir_facts st sp R2 Hne) as [_ [_ Hmem]]. apply Hmem in Hin as [v Hin].
+  destruct (Hfw _ _ Hin) as [a [Wa E]]. apply path_str_inj in E. subst n. exists a, v. split; [exact Wa|]. split; [reflexivity|].
+  rewrite <- (Hm a) by (apply fs_wf2_spec in Wa; tauto). apply in_alookup_nodup; assumption.
+Qed.
+Lemma repr_names st sp a v : rel2 st sp -> d_dir st <> [] -> fs_wf2 a = true -> slookup a (sp_map sp) = Some v ->
+  In (nm false a) (fs_readdir st).
+Proof.
+  intros R2 Hne Wa Hs. pose proof R2 as [R _]. pose proof R as [_ [_ [_ [_ [Hm _]]]]].
+  destruct (readdir_facts st sp R2 Hne) as [_ [_ Hmem]]. apply Hmem. exists v. apply alookup_in_pair.
+  rewrite (Hm a) by (apply fs_wf2_spec in Wa; tauto). exact Hs.
+Qed.
+
+Definition dfk (st : dbstate) (n : bytes) : bytes :=
+  match fs_decode_key false (d_base st) (elem_key n) with Some kk => kk | None => [] end.
+Definition dfv (st : dbstate) (n : bytes) : bytes :=
+  match fs_get false st (dfk st n) with DVal v => v | _ => [] end.
+
+(* Dump in text mode = the matching names of the sorted directory, decoded and read *)
+Lemma fs_dump_filter st sp p : rel2 st sp -> d_dir st <> [] -> dump_ok sp = true ->
+  fs_dump false st p
+  = match filter (dM (sp_base sp) p) (fs_readdir st) with
+    | [] => DErr ENotFound
+    | l => DDump (map (fun n => (dfk st n, dfv st n)) l)
+    end.
+Proof.
+  intros R2 Hne Hok. pose proof R2 as [[Hb _] _].
+  assert (H : forall n, In n (fs_readdir st) ->
+     if dM (sp_base sp) p n then (len (elem_key n) <? len (b_pfx (sp_base sp) :: p)) = false
+                 /\ fs_decode_key false (d_base st) (elem_key n) = Some (dfk st n)
+                 /\ is_prefix (b_pfx (sp_base sp) :: p) (hd 0 (elem_key n) :: dfk st n) = true
+                 /\ fs_get false st (dfk st n) = DVal (dfv st n)
+     else forall kk, fs_decode_key false (d_base st) (elem_key n) = Some kk ->
+                     is_prefix (b_pfx (sp_base sp) :: p) (hd 0 (elem_key n) :: kk) = false).
+  { intros n Hin. destruct (names_repr st sp n R2 Hne Hin) as [a [v [Wa [-> Hs]]]].
+    pose proof (name_facts st sp p a v R2 Hok Wa Hs) as F. cbv zeta in F.
+    destruct (dM (sp_base sp) p (nm false a)).
+    - destruct F as [_ [_ [_ [F1 [F2 [F3 F4]]]]]]. unfold dfv, dfk. rewrite F2, F4. auto.
+    - destruct F as [F _]. exact F. }
+  unfold fs_dump. rewrite Hb. cbn [model_base b_pfx].
+  destruct (readdir_facts st sp R2 Hne) as [Hsorted _].
+  rewrite (dump_first_shape st _ (dM (sp_base sp) p) (dfk st) (dfv st) _ H).
+  assert (Ef : takew (dM (sp_base sp) p) (skipw (dM (sp_base sp) p) (fs_readdir st)) = filter (dM (sp_base sp) p) (fs_readdir st))
+    by (exact (takew_skipw_filter (dq0 (sp_base sp) ++ p) _ Hsorted)).
+  rewrite <- Ef.
+  destruct (skipw (dM (sp_base sp) p) (fs_readdir st)) as [|n r] eqn:Esk; [reflexivity|].
+  destruct (skipw_head _ _ _ _ Esk) as [Hn [Hr _]]. cbn [takew]. rewrite Hn. cbn [map]. f_equal. f_equal.
+  apply dump_rest_shape. intros m Hm. specialize (H m (Hr m Hm)).
+  destruct (dM (sp_base sp) p m); [tauto|exact H].
+Qed.
+
+Theorem fs_dump_state_lemma st sp p : rel2 st sp -> d_dir st <> [] -> dump_ok sp = true ->
+  match fs_dump false st p with
+  | DDump l =>
+    (forall k v, In (k, v) l <-> is_prefix p k = true /\ slookup (ctx_akey (sp_base sp) None k) (sp_map sp) = Some v)
+    /\ NoDup (map fst l) /\ l <> []
+  | DErr ENotFound =>
+    forall k, is_prefix p k = true -> slookup (ctx_akey (sp_base sp) None k) (sp_map sp) = None
+  | _ => False
+  end.
+Proof.
+  intros R2 Hne Hok. rewrite (fs_dump_filter st sp p R2 Hne Hok).
+  pose proof R2 as [_ [Hmw _]].
+  destruct (readdir_facts st sp R2 Hne) as [_ [Hnd _]].
+  set (b := sp_base sp). set (L := filter (dM b p) (fs_readdir st)).
+  (* membership in the listing *)
+  assert (Hmem : forall k v, In (k, v) (map (fun n => (dfk st n, dfv st n)) L)
+                 <-> is_prefix p k = true /\ slookup (ctx_akey b None k) (sp_map sp) = Some v).
+  { intros k v. rewrite in_map_iff. split.
+    - intros [n [E Hin]]. apply filter_In in Hin as [Hin HM].
+      destruct (names_repr st sp n R2 Hne Hin) as [a [w [Wa [-> Hs]]]].
+      pose proof (name_facts st sp p a w R2 Hok Wa Hs) as F. cbv zeta in F. fold b in F. rewrite HM in F.
+      destruct F as [F1 [F2 [F3 [_ [F5 [_ F7]]]]]].
+      unfold dfv, dfk in E. rewrite F5, F7 in E. injection E as <- <-.
+      split; [exact F3|]. rewrite <- (same_space_eq b a F1 F2). exact Hs.
+    - intros [Hp Hs]. set (a := ctx_akey b None k) in *.
+      assert (Wa : fs_wf2 a = true) by (apply (Hmw a v); apply slookup_in; exact Hs).
+      exists (nm false a). pose proof (name_facts st sp p a v R2 Hok Wa Hs) as F. cbv zeta in F. fold b in F.
+      assert (HM : dM b p (nm false a) = true).
+      { unfold dM. rewrite (nm_in_space b a (same_space_ctx b k) eq_refl). rewrite is_prefix_app_same. exact Hp. }
+      rewrite HM in F. destruct F as [_ [_ [_ [_ [F5 [_ F7]]]]]].
+      split.
+      + unfold dfv, dfk. rewrite F5. cbn [a a_key ctx_akey] in *. rewrite F7. reflexivity.
+      + apply filter_In. split; [|exact HM]. apply (repr_names st sp a v); assumption. }
+  assert (Hnodup : NoDup (map fst (map (fun n => (dfk st n, dfv st n)) L))).
+  { rewrite map_map. cbn [fst]. apply NoDup_map_inj_in; [|apply NoDup_filter; exact Hnd].
+    intros x y Hx Hy E. apply filter_In in Hx as [Hx Mx]. apply filter_In in Hy as [Hy My].
+    destruct (names_repr st sp x R2 Hne Hx) as [a [v [Wa [-> Hsa]]]].
+    destruct (names_repr st sp y R2 Hne Hy) as [a' [v' [Wa' [-> Hsa']]]].
+    pose proof (name_facts st sp p a v R2 Hok Wa Hsa) as F. cbv zeta in F. fold b in F. rewrite Mx in F.
+    pose proof (name_facts st sp p a' v' R2 Hok Wa' Hsa') as F'. cbv zeta in F'. fold b in F'. rewrite My in F'.
+    destruct F as [F1 [F2 [_ [_ [F5 _]]]]]. destruct F' as [F1' [F2' [_ [_ [F5' _]]]]].
+    unfold dfk in E. rewrite F5, F5' in E.
+    rewrite (same_space_eq b a F1 F2), (same_space_eq b a' F1' F2'), E. reflexivity. }
+  destruct L as [|n L'] eqn:EL.
+  - intros k Hp. destruct (slookup (ctx_akey b None k) (sp_map sp)) as [v|] eqn:Es; [|reflexivity].
+    exfalso. apply (proj2 (Hmem k v)). split; assumption.
+  - split; [exact Hmem|]. split; [exact Hnodup|discriminate].
+Qed.
+
+(* the history-level statement *)
+Theorem fs_dump_lists_prefix_partial_lemma : forall dir ops p,
+  dir_ok dir = true -> dir <> [] ->
+  fs_hist_ok false spec_init ops = true -> forallb put_key_nonempty ops = true ->
+  let st := fst (db_run (BFs false) (db_init dir) ops) in
+  let sp := fst (spec_run spec_init ops) in
+  dump_ok sp = true ->
+  match fs_dump false st p with
+  | DDump l =>
+    (forall k v, In (k, v) l <-> is_prefix p k = true /\ slookup (ctx_akey (sp_base sp) None k) (sp_map sp) = Some v)
+    /\ NoDup (map fst l) /\ l <> []
+  | DErr ENotFound =>
+    forall k, is_prefix p k = true -> slookup (ctx_akey (sp_base sp) None k) (sp_map sp) = None
+  | _ => False
+  end.
+Proof.
+  intros dir ops p Hd Hne Hok Hk st sp Hdump.
+  assert (R2 : rel2 st sp) by (apply rel2_run; [apply rel2_init; exact Hd|exact Hok|exact Hk]).
+  apply fs_dump_state_lemma; [exact R2| |exact Hdump].
+  destruct R2 as [[_ _] _]. unfold st.
+  assert (Hdir : forall ops0 st0, d_dir (fst (db_run (BFs false) st0 ops0)) = d_dir st0).
+  { induction ops0 as [|o ops0 IH]; intros st0; [reflexivity|]. cbn [db_run].
+    assert (E : d_dir (fst (db_step (BFs false) st0 o)) = d_dir st0).
+    { destruct o; cbn [db_step fst with_base d_dir]; try reflexivity.
+      - unfold fs_put, fs_write. destruct (negb (check_put (d_base st0))); [reflexivity|].
+        destruct (fs_to_key false (d_base st0) k); try reflexivity.
+        repeat match goal with |- context [if ?c then _ else _] => destruct c end; reflexivity.
+      - destruct (set_lock (d_base st0) p0 lk). reflexivity. }
+    destruct (db_step (BFs false) st0 o) as [st1 x]. cbn [fst] in E. specialize (IH st1).
+    destruct (db_run (BFs false) st1 ops0). cbn [fst] in *. congruence. }
+  rewrite Hdir. exact Hne.
+Qed.
+
+(* ---- the reference map means what the property says --------------------------------------------------------- *)
+(* a successful write is what the next read in the same context returns *)
+Lemma spec_read_your_write sp k v :
+  snd (spec_put sp k v) = DOk -> spec_get (fst (spec_put sp k v)) k = DVal v.
+Proof.
+  unfold spec_put. destruct (negb (check_put (sp_base sp))); [discriminate|].
+  destruct (b_pfx (sp_base sp) =? DATATYPE_UNKNOWN) eqn:Ep; [discriminate|]. intros _. cbn [fst].
+  unfold spec_get. cbn [sp_base sp_map]. rewrite Ep.
+  destruct (eff_lang (sp_base sp)) as [c|]; cbn [slookup]; rewrite akey_eqb_refl; reflexivity.
+Qed.
+(* a key never written (neither as translation nor as default entry) is reported as not found *)
+Lemma spec_never_written sp k :
+  b_pfx (sp_base sp) <> DATATYPE_UNKNOWN ->
+  (forall l, slookup (ctx_akey (sp_base sp) l k) (sp_map sp) = None) ->
+  spec_get sp k = DErr ENotFound.
+Proof.
+  intros Hp H. unfold spec_get. replace (b_pfx (sp_base sp) =? DATATYPE_UNKNOWN) with false by (symmetry; apply N.eqb_neq; exact Hp).
+  rewrite (H None). destruct (eff_lang (sp_base sp)) as [c|]; [rewrite (H (Some c))|]; reflexivity.
+Qed.
+(* a language-scoped read falls back to the default-language entry when no translation exists *)
+Lemma spec_fallback_default sp k c v :
+  b_pfx (sp_base sp) <> DATATYPE_UNKNOWN -> eff_lang (sp_base sp) = Some c ->
+  slookup (ctx_akey (sp_base sp) (Some c) k) (sp_map sp) = None ->
+  slookup (ctx_akey (sp_base sp) None k) (sp_map sp) = Some v ->
+  spec_get sp k = DVal v.
+Proof.
+  intros Hp El Ht Hd. unfold spec_get. replace (b_pfx (sp_base sp) =? DATATYPE_UNKNOWN) with false by (symmetry; apply N.eqb_neq; exact Hp).
+  rewrite El, Ht, Hd. reflexivity.
 Qed.
